@@ -200,8 +200,23 @@ def header_reader_rule(prog, res, rule='header-read', int_scale_ok=False):
                     cnt = True
         loopn = f.nodes[zl['node']]
         cond = Renderer(f).render(loopn['cond']) if 'cond' in loopn else ''
-        if okz and cnt and cond in ('!((bool)this._parametersAddress)', '(this._parametersAddress == 0)'):
+        WHILE0 = ('!((bool)this._parametersAddress)', '(this._parametersAddress == 0)', '(0 == this._parametersAddress)', '!(this._parametersAddress != 0)')
+        UNTIL = ('(bool)this._parametersAddress', '(this._parametersAddress != 0)', '(0 != this._parametersAddress)', '!(this._parametersAddress == 0)', '(this._parametersAddress > 0)')
+        form = cond in WHILE0
+        if not form and cond == '' and 'body' in loopn:
+            # for (;;) { if (<non-zero>) break; ... }
+            b_ = f.nodes[loopn['body']]
+            st0 = f.nodes[b_['ch'][0]] if b_['k'] == 'CompoundStmt' and b_['ch'] else None
+            if st0 is not None and st0['k'] == 'IfStmt' and 'else' not in st0:
+                th_ = f.nodes[st0['then']]
+                only_break = th_['k'] == 'BreakStmt' or (th_['k'] == 'CompoundStmt' and len(th_['ch']) == 1 and f.nodes[th_['ch'][0]]['k'] == 'BreakStmt')
+                if only_break and Renderer(f).render(st0['cond']) in UNTIL:
+                    form = True
+        if okz and cnt and form:
             res.ok(rule, 'header.leading_zeros', zl['where'], 'zero bytes before the header are skipped one at a time and counted in _nbOfZerosBeforeHeader', function=f.sig, expr='zero-skip')
+        elif okz and cnt:
+            res.undecided(rule, 'header.leading_zeros', zl['where'], 'the leading-zero loop re-reads one byte into _parametersAddress and counts it, but its exit test (%s) is in a form the rule does not read [shape not read by the rule]' % (cond or 'inside the body'),
+                          function=f.sig, expr='zero-skip')
         else:
             res.viol(rule, 'header.leading_zeros', zl['where'], 'leading-zero loop does not (re-read one byte into _parametersAddress while it is 0 and count it): cond=%s' % cond,
                      function=f.sig, expr='zero-skip')
@@ -755,7 +770,7 @@ def group_writer_rule(prog, res, rule='group-write'):
         inner = io_only(lp[3])
         if len(inner) == 1 and inner[0][0] == 'call' and inner[0][1].qname.endswith('Parameter::write'):
             sub = inner[0][2]
-            if sub.get('arg1') in ('-(arg1)', '-arg1') and sub.get('arg0') == 'arg0' and sub.get('arg2') == 'arg2' and sub.get('this') == 'this.parameter(local:%s)' % lp[2]:
+            if sub.get('arg1') in ('-(arg1)', '-arg1') and sub.get('arg0') == 'arg0' and sub.get('arg2') == 'arg2' and sub.get('this') in ('this.parameter(local:%s)' % lp[2], 'this._parameters[local:%s]' % lp[2], 'this._parameters[(unsigned long)local:%s]' % lp[2], 'this._parameters.at(local:%s)' % lp[2]):
                 ck.ok('parameters', ck.where(lp), 'parameter(i).write(f, -groupIdx, dataStart) for i in [0, nbParameters)')
             else:
                 ck.bad('parameters', ck.where(lp), 'parameter records are written with %s (expected element i, stream, -groupIdx, the DATA_START position)' % sub)
@@ -826,11 +841,51 @@ def parameter_writer_rule(prog, res, rule='parameter-write'):
     var = record_prefix_writer(ck, spec, 'parameter', 'arg1')
     ck.w_object('type', 1, src='this._data_type', cite=L['type']['cite'])
     # scalar special case
-    alt = ck.take(('alt',))
-    if alt is None:
+    SC = ('((this._dimension.size == 1) && (this._dimension[0] == 1))', '((this._dimension[0] == 1) && (this._dimension.size == 1))')
+    nx = ck.peek()
+    hoisted_count = None
+    if nx is not None and nx[0] == 'io' and nx[1].get('k') == 'write' and nx[1].get('src_cases') and len(nx[1]['src_cases']) == 2:
+        # the count byte is computed first (0 for the scalar case, the number of dimensions otherwise) and written once;
+        # the dimension bytes follow under the negated scalar test
+        cs = nx[1]['src_cases']
+        byc = {}
+        for v_, cnd in cs:
+            if len(cnd) == 1:
+                (ck_, tv_), = cnd.items()
+                byc[(ck_ in SC) and tv_ or (negate(ck_) in SC and not tv_)] = pshow(v_) if v_ is not None else None
+        d0 = ck.w_object('ndims', 1, cite=L['ndims']['cite'])
+        if d0 is not None:
+            if byc.get(True) == '0' and byc.get(False) == 'this._dimension.size':
+                ck.ok('ndims.scalar-test', d0['where'], 'scalar encoding iff dimension == [1] (count byte computed before the write)')
+                hoisted_count = True
+            elif set(byc) == {True, False}:
+                ck.bad('ndims', d0['where'], 'the dimension-count byte is %s for dimension == [1] and %s otherwise; specified 0 and the number of dimensions' % (byc.get(True), byc.get(False)), facts={'cite': L['ndims']['cite']})
+                hoisted_count = True
+            else:
+                ck.shape('ndims.scalar-test', d0['where'], 'the dimension-count byte depends on %s, which is not the scalar test the rule reads' % [list(c_) for _, c_ in cs])
+                hoisted_count = True
+    alt = ck.take(('alt',)) if hoisted_count is None or (ck.peek() is not None and ck.peek()[0] == 'alt') else None
+    if hoisted_count and alt is not None:
+        o = orient(alt, SC)
+        if o is None:
+            ck.shape('dims', ck.where(alt), 'the dimension bytes are written under %s, which is not the scalar test' % alt[1])
+        elif io_only(o[0]):
+            ck.bad('dims', ck.where(alt), 'dimension bytes are written in the scalar case (count byte 0)')
+        else:
+            c2 = Checker(prog, res, rule, f, o[1], 'parameter.matrix')
+            lp = c2.take(('loop',)) or c2.peek()
+            if c2.want_loop('dims', lp, ['this._dimension.size'], 'expected one byte per dimension'):
+                c3 = Checker(prog, res, rule, f, lp[3], 'parameter.matrix')
+                d = c3.w_object('dims', 1, cite=L['dims']['cite'])
+                if d is not None and not re.match(r'^this\._dimension\[(\(unsigned long\))?local:%s\]$' % lp[2], d.get('src', '')):
+                    c3.bad('dims', d['where'], 'dimension byte emitted from %s' % d.get('src'))
+            c2.done()
+            ck.failed = ck.failed or c2.failed
+    elif hoisted_count:
+        ck.shape('dims', ck.where(ck.peek()), 'expected the dimension bytes under the negated scalar test, found %s' % _describe(ck.peek()))
+    elif alt is None:
         ck.shape('ndims', ck.where(ck.peek()), 'expected the scalar / dimension-list alternative, found %s' % _describe(ck.peek()))
     else:
-        SC = ('((this._dimension.size == 1) && (this._dimension[0] == 1))', '((this._dimension[0] == 1) && (this._dimension.size == 1))')
         o = orient(alt, SC)
         prod_locals = set()
         Rw = Renderer(f)
@@ -1510,6 +1565,13 @@ def string_assembly_rule(prog, res, rule, g2):
             if not (n['callee']['name'] in ('push_back', 'emplace_back') and f.call_obj(n) is not None and outp is not None and Rf.render(f.call_obj(n)) == outp):
                 continue
             pushes += 1
+            # a guard on the string length around the push must let every positive length through
+            import indexsites as _IS
+            for l_, op_, r_, _x in _IS.facts_at(f, Rf, n['id']):
+                if (substitute(l_, sub) if sub else l_) == 'arg0[0]' and re.match(r'^\d+$', str(r_)) and op_ in ('!=', '>', '>=', '=='):
+                    k_ = int(r_)
+                    if not {'!=': 1 != k_, '>': 1 > k_, '>=': 1 >= k_, '==': False}[op_]:
+                        bad = 'the string is stored at %s only when dimension[0] %s %d: a value made of one-character strings is dropped' % (f.loc(n['id']), op_, k_)
             a = f.nodes[f.strip(n['args'][0], 'all')]
             pv = g.vertex_of.get(n['id'])
             if a['k'] == 'DeclRefExpr' and a['decl'].get('dk') == 'local':
@@ -1630,6 +1692,108 @@ def patch_guard_rule(prog, res, rule='capacity-guard'):
     return n
 
 
+def induction_local(f, loop_id, name, use_id):
+    """local `name` is initialised to a constant before loop `loop_id` and changed exactly once per iteration, unconditionally,
+    by ++ / -- / += c / -= c at the top level of the loop body: -> (c0, step, updated_before_use) else None"""
+    did = None
+    c0 = None
+    for n in f.all_nodes({'DeclStmt'}):
+        for d in n['decls']:
+            if d['name'] == name and 'init' in d and n['id'] < loop_id:
+                iv = f.nodes[f.strip(d['init'], 'all')]
+                if iv.get('cv') is not None:
+                    did, c0 = d['id'], int(iv['cv'])
+    if did is None:
+        return None
+    lp = f.nodes[loop_id]
+    body = f.nodes[lp['body']] if 'body' in lp else None
+    if body is None or body['k'] != 'CompoundStmt':
+        return None
+    ups = []
+    for x in f.descendants(loop_id):
+        m = f.nodes[x]
+        t = None
+        step = None
+        if m['k'] == 'UnaryOperator' and m['op'] in ('++', '--'):
+            t, step = f.nodes[f.strip(m['ch'][0], 'all')], (1 if m['op'] == '++' else -1)
+        elif m['k'] == 'CompoundAssignOperator' and m.get('op') in ('+=', '-='):
+            t = f.nodes[f.strip(m['ch'][0], 'all')]
+            r = f.nodes[f.strip(m['ch'][1], 'all')]
+            step = (int(r['cv']) if r.get('cv') is not None else None)
+            if step is not None and m['op'] == '-=':
+                step = -step
+        elif m['k'] == 'BinaryOperator' and m['op'] == '=':
+            t = f.nodes[f.strip(m['ch'][0], 'all')]
+            if t['k'] == 'DeclRefExpr' and t['decl'].get('id') == did:
+                return None
+            t = None
+        if t is not None and t['k'] == 'DeclRefExpr' and t['decl'].get('id') == did:
+            if step is None:
+                return None
+            # must be a direct statement of the loop body (unconditional, once per iteration)
+            top = x
+            while f.nodes[top].get('p') is not None and f.nodes[top]['p'] != body['id']:
+                top = f.nodes[top]['p']
+                if f.nodes[top]['k'] in ('IfStmt', 'ForStmt', 'WhileStmt', 'DoStmt', 'CXXForRangeStmt', 'SwitchStmt', 'ConditionalOperator'):
+                    return None
+            if f.nodes[top].get('p') != body['id']:
+                return None
+            ups.append((x, step, top))
+    if len(ups) != 1:
+        return None
+    x, step, top = ups[0]
+    # position of the update relative to the use, as statements of the body
+    order = list(body['ch'])
+    utop = use_id
+    while f.nodes[utop].get('p') is not None and f.nodes[utop]['p'] != body['id']:
+        utop = f.nodes[utop]['p']
+    if top not in order or utop not in order:
+        return None
+    # nothing may leave the iteration between the two (a `continue` before the update would skip it)
+    lo, hi = sorted((order.index(top), order.index(utop)))
+    if order.index(top) > order.index(utop):
+        for st in order[:order.index(top)]:
+            if any(f.nodes[y]['k'] == 'ContinueStmt' for y in [st] + list(f.descendants(st))):
+                return None
+    else:
+        for st in order[:order.index(top)]:
+            if any(f.nodes[y]['k'] == 'ContinueStmt' for y in [st] + list(f.descendants(st))):
+                return None
+    return c0, step, order.index(top) < order.index(utop)
+
+
+def id_of_position(f, lp, call_item, arg):
+    """is the id expression handed to the record writer equal to -(position + 1)?  -> 'ok' / 'wrong' / 'unknown'"""
+    i = lp[2]
+    if arg in ('-((int)(local:%s + 1))' % i, '-((int)(1 + local:%s))' % i, '-(int)(local:%s + 1)' % i):
+        return 'ok'
+    names = set(re.findall(r'local:(\w+)', arg or ''))
+    if not names or len(names) != 1:
+        return 'unknown' if arg and 'local:' not in arg else ('wrong' if names == {i} else 'unknown')
+    nm = names.pop()
+    if nm == i:
+        # an expression of the loop index itself: evaluate it
+        vals = []
+        for k in range(4):
+            e = re.sub(r'\((?:unsigned long|unsigned int|int|long|size_t)\)', '', arg).replace('local:' + nm, str(k))
+            if not re.match(r'^[\d\s()+\-*]+$', e):
+                return 'unknown'
+            vals.append(eval(e))
+        return 'ok' if vals == [-(k + 1) for k in range(4)] else 'wrong'
+    ind = induction_local(f, lp[4], nm, call_item[4] if len(call_item) > 4 and isinstance(call_item[4], int) else lp[4])
+    if ind is None:
+        return 'unknown'
+    c0, step, before = ind
+    vals = []
+    for k in range(4):
+        v = c0 + step * (k + 1 if before else k)
+        e = re.sub(r'\((?:unsigned long|unsigned int|int|long|size_t)\)', '', arg).replace('local:' + nm, '(%d)' % v)
+        if not re.match(r'^[\d\s()+\-*]+$', e):
+            return 'unknown'
+        vals.append(eval(e))
+    return 'ok' if vals == [-(k + 1) for k in range(4)] else 'wrong'
+
+
 def parameters_writer_rule(prog, res, rule='parameters-write'):
     spec = load_spec()
     f = prog.fn('ezc3d::ParametersNS::Parameters::write', nparams=1)
@@ -1651,11 +1815,18 @@ def parameters_writer_rule(prog, res, rule='parameters-write'):
         # placeholder guard: a record with a zero-length name is the end-of-section marker, so
         # unnamed groups (placeholders of unused ids) must not be emitted
         i = lp[2]
-        guards = ('!(this.group(local:%s)._name.empty())' % i, '(this.group(local:%s)._name.size > 0)' % i, '(this.group(local:%s)._name.size != 0)' % i,
-                  '!((bool)this.group(local:%s)._name.empty())' % i, '!(this.group(local:%s)._name.size == 0)' % i)
+        elems = ('this.group(local:%s)' % i, 'this._groups[local:%s]' % i, 'this._groups[(unsigned long)local:%s]' % i, 'this._groups.at(local:%s)' % i)
+        guards = tuple(g_ % e_ for e_ in elems for g_ in ('!(%s._name.empty())', '(%s._name.size > 0)', '(%s._name.size != 0)', '!((bool)%s._name.empty())', '!(%s._name.size == 0)'))
+        skips = tuple(g_ % e_ for e_ in elems for g_ in ('%s._name.empty()', '(%s._name.size == 0)', '(bool)%s._name.empty()', '!(%s._name.size > 0)'))
         if len(inner) == 1 and inner[0][0] == 'alt' and inner[0][1] in guards and not io_only(inner[0][3]):
             ck.ok('groups.placeholder-guard', ck.where(inner[0]), 'unnamed placeholder groups are skipped (a zero-length name would terminate the section)')
             inner = io_only(inner[0][2])
+        elif len(inner) == 1 and inner[0][0] == 'alt' and inner[0][1] in skips and not io_only(inner[0][2]):
+            ck.ok('groups.placeholder-guard', ck.where(inner[0]), 'unnamed placeholder groups are skipped (a zero-length name would terminate the section)')
+            inner = io_only(inner[0][3])
+        elif len(inner) == 1 and inner[0][0] == 'alt' and '_name' in str(inner[0][1]):
+            ck.shape('groups.placeholder-guard', ck.where(inner[0]), 'the records are written under the condition %s, which the rule does not tabulate' % str(inner[0][1])[:120])
+            inner = io_only(inner[0][2]) or io_only(inner[0][3])
         else:
             ck.bad('groups.placeholder-guard', ck.where(lp), 'every position is written, including the unnamed placeholder groups the reader inserts for unused ids: '
                    'a zero-length name is the end-of-section marker, so all later groups are lost on the next load')
@@ -1664,8 +1835,11 @@ def parameters_writer_rule(prog, res, rule='parameters-write'):
         okc = len(inner) == 1 and inner[0][0] == 'call' and inner[0][1].qname.endswith('Group::write')
         if okc:
             sub = inner[0][2]
-            if sub.get('this') == 'this.group(local:%s)' % i and sub.get('arg1') in ('-((int)(local:%s + 1))' % i, '-((int)(1 + local:%s))' % i) and sub.get('arg2') == 'local:dataStartPosition':
-                ck.ok('groups', ck.where(lp), 'group(i).write(f, -(i+1), dataStartPosition) for every position i: position i <-> id -(i+1)')
+            idv = id_of_position(f, lp, inner[0], sub.get('arg1'))
+            if sub.get('this') in elems and idv == 'ok' and sub.get('arg2') == 'local:dataStartPosition':
+                ck.ok('groups', ck.where(lp), 'element i is written with id -(i+1) and the DATA_START position, for every position i: position i <-> id -(i+1)')
+            elif sub.get('this') in elems and idv == 'unknown' and sub.get('arg2') == 'local:dataStartPosition':
+                ck.shape('groups', ck.where(lp), 'the id handed to Group::write is %s, which the rule cannot relate to the position' % sub.get('arg1'))
             else:
                 ck.bad('groups', ck.where(lp), 'group records are written with %s; positions must map to ids -(i+1)' % {k: v for k, v in sub.items() if k != '#scope'})
         else:
@@ -2000,21 +2174,38 @@ def storage_rule(prog, res, rule, f, fl, pl, al):
     ci = [it for it in io_only(al[3]) if it[0] == 'loop'][0][2] if [it for it in io_only(al[3]) if it[0] == 'loop'] else None
     why = []
     shape = []
-    pts = [c for c in calls.get('point', []) if len(c[1]) == 2]
-    if len(pts) != 1:
-        shape.append('no single indexed store of the point')
-    elif pts[0][1][1] != 'local:%s' % i:
-        why.append('point is stored at index %s, the point loop variable is %s' % (pts[0][1][1], i))
-    ch = [c for c in calls.get('channel', []) if len(c[1]) == 2]
-    if len(ch) != 1:
-        shape.append('no single indexed store of the channel')
-    elif ch[0][1][1] != 'local:%s' % ci:
-        why.append('channel is stored at index %s, the channel loop variable is %s' % (ch[0][1][1], ci))
-    sf = [c for c in calls.get('subframe', []) if len(c[1]) == 2]
-    if len(sf) != 1:
-        shape.append('no single indexed store of the sub-frame')
-    elif sf[0][1][1] != 'local:%s' % k:
-        why.append('sub-frame is stored at index %s, the sub-frame loop variable is %s' % (sf[0][1][1], k))
+    def appended_in_order(c):
+        """the store is the append form (index defaulted to SIZE_MAX) into a local container that was created empty
+        in the enclosing iteration: element number = number of appends so far = the loop variable"""
+        obj, args, nid, fn_ = c
+        if args[1] not in ('18446744073709551615', 'default', '(unsigned long)-1', 'SIZE_MAX'):
+            return None
+        m_ = re.match(r'^local:(\w+)$', obj)
+        if not m_:
+            return False
+        for n_ in fn_.all_nodes({'DeclStmt'}):
+            for d_ in n_['decls']:
+                if d_['name'] == m_.group(1):
+                    if 'init' not in d_:
+                        return True
+                    iv = fn_.nodes[fn_.strip(d_['init'], 'noop')]
+                    return iv['k'] in ('CXXConstructExpr', 'CXXTemporaryObjectExpr') and not [a_ for a_ in iv.get('args', []) if fn_.nodes[fn_.strip(a_, 'all')]['k'] != 'CXXDefaultArgExpr']
+        return False
+
+    def judge(cs, what, var):
+        if len(cs) != 1:
+            shape.append('no single indexed store of the %s' % what)
+            return
+        ap = appended_in_order(cs[0])
+        if ap is True:
+            return
+        if ap is False:
+            why.append('%s is appended to a container that does not start empty in the iteration: it lands behind the elements already there, not at %s' % (what, var))
+        elif cs[0][1][1] != 'local:%s' % var:
+            why.append('%s is stored at index %s, the %s loop variable is %s' % (what, cs[0][1][1], what, var))
+    judge([c for c in calls.get('point', []) if len(c[1]) == 2], 'point', i)
+    judge([c for c in calls.get('channel', []) if len(c[1]) == 2], 'channel', ci)
+    judge([c for c in calls.get('subframe', []) if len(c[1]) == 2], 'sub-frame', k)
     adds = calls.get('add', [])
     if len(adds) != 2:
         shape.append('points/analogs are not added to the frame by two add() calls')
@@ -2524,7 +2715,11 @@ def truncating_write_rule(prog, res, rule='truncating-write'):
             src = d['src']
             inst = '%s <- %s' % (wc, src)
             vals = d.get('src_vals')
-            key = src if not (vals and d.get('src_local')) else 'value:%s' % ('|'.join(sorted(pshow(v) for v in vals)))
+            # constants that fit are not what a finding is about: the site is identified by its non-constant values
+            def _fits(v_):
+                return set(v_.keys()) <= {()} and -(1 << (8 * wc - 1)) <= v_.get((), 0) < (1 << (8 * wc))
+            kv = [v for v in (vals or []) if not _fits(v)] or (vals or [])
+            key = src if not (vals and d.get('src_local')) else 'value:%s' % ('|'.join(sorted(pshow(v) for v in kv)))
             key = '%d<-%s' % (wc, re.sub(r'local:\w+', '$v', key))
             # (1) constants
             if vals and all(set(v.keys()) <= {()} and -(1 << (8 * wc - 1)) <= v.get((), 0) < (1 << (8 * wc)) for v in vals):
